@@ -442,4 +442,420 @@ Proof.
     + unfold DlInv.in_ext. lia.
 Qed.
 
+
+(** * 3. Retry placement *)
+(** ** The stale hash context is irrelevant.
+    After [dl_reset] the chunk writer is the initial state of the single-transfer theorems
+    except for [zck->check_chunk_hash], which the broken transfer may have left open.  With
+    [write_in_chunk = 0] and [tgt_check = NULL] that field is never read before [select]
+    re-initialises it: two states that differ only there run in lock step and become EQUAL at
+    the first successful search. *)
+Definition with_acc (s : dlstate) (a : option bytes) : dlstate :=
+  mkDl (d_err s) (d_pos s) (d_wic s) (d_tgt s) (d_cur s) a (d_fpos s) (d_file s) (d_tab s).
+
+Definition accrel (s1 s2 : dlstate) : Prop :=
+  s1 = s2 \/ (d_wic s2 = 0 /\ d_tgt s2 = None /\ exists a, s1 = with_acc s2 a).
+
+Lemma accrel_proj s1 s2 : accrel s1 s2 ->
+  d_err s1 = d_err s2 /\ d_tab s1 = d_tab s2 /\ d_file s1 = d_file s2.
+Proof. intros [->|(_ & _ & a & ->)]; repeat split; reflexivity. Qed.
+
+Lemma accrel_set_err s1 s2 : accrel s1 s2 -> accrel (set_err s1) (set_err s2).
+Proof.
+  intros [->|(Hw & Ht & a & ->)]; [left; reflexivity|]. right.
+  split; [exact Hw|]. split; [exact Ht|]. exists a. reflexivity.
+Qed.
+
+Lemma dstep_rel ridx s a bs : d_wic s = 0 -> d_tgt s = None ->
+  match dstep H doff ridx (with_acc s a) bs, dstep H doff ridx s bs with
+  | SDone s1' r1, SDone s2' r2 => r1 = r2 /\ accrel s1' s2'
+  | SMore s1' w1, SMore s2' w2 => w1 = w2 /\ s1' = s2'
+  | _, _ => False
+  end.
+Proof.
+  intros Hw Ht.
+  assert (Hrel : accrel (with_acc s a) s).
+  { right. split; [exact Hw|]. split; [exact Ht|]. exists a. reflexivity. }
+  unfold dstep. change (d_err (with_acc s a)) with (d_err s). destruct (d_err s).
+  { split; [reflexivity|exact Hrel]. }
+  change (guard ridx (with_acc s a)) with (guard ridx s). destruct (guard ridx s).
+  { split; [reflexivity|apply accrel_set_err; exact Hrel]. }
+  assert (Hw1 : dl_write (with_acc s a) bs = (with_acc s a, true)).
+  { unfold dl_write. change (d_wic (with_acc s a)) with (d_wic s). rewrite Hw. reflexivity. }
+  assert (Hw2 : dl_write s bs = (s, true)).
+  { unfold dl_write. rewrite Hw. reflexivity. }
+  rewrite Hw1, Hw2. cbn [negb].
+  change (d_wic (with_acc s a)) with (d_wic s). rewrite Hw. cbn [N.eqb].
+  change (wbf (with_acc s a) (len bs)) with (wbf s (len bs)).
+  unfold settle, set_chunk_valid. change (d_tgt (with_acc s a)) with (d_tgt s). rewrite Ht.
+  cbn [negb]. unfold select.
+  cbn [with_acc d_err d_pos d_wic d_tgt d_cur d_acc d_fpos d_file d_tab].
+  destruct (search (d_tab s) (d_pos s) _ _) as [[[k e] c]|].
+  - cbn [d_wic]. destruct ((0 <? r_len e) && (wbf s (len bs) <? len bs)).
+    + split; reflexivity.
+    + split; [reflexivity|left; reflexivity].
+  - cbn [d_wic]. replace (0 <? d_wic s) with false by (rewrite Hw; reflexivity). cbn [andb].
+    split; [reflexivity|]. right. cbn [d_wic d_tgt]. split; [exact Hw|]. split; [exact Ht|].
+    exists a. reflexivity.
+Qed.
+
+Lemma dlw_rel ridx s1 s2 bs : accrel s1 s2 ->
+  snd (dlw H doff ridx s1 bs) = snd (dlw H doff ridx s2 bs) /\
+  accrel (fst (dlw H doff ridx s1 bs)) (fst (dlw H doff ridx s2 bs)).
+Proof.
+  intros [->|(Hw & Ht & a & ->)]; [split; [reflexivity|left; reflexivity]|].
+  unfold dlw. rewrite !dlw_f_S. pose proof (dstep_rel ridx s2 a bs Hw Ht) as Hd.
+  destruct (dstep H doff ridx (with_acc s2 a) bs) as [s1' r1|s1' w1];
+    destruct (dstep H doff ridx s2 bs) as [s2' r2|s2' w2]; try contradiction.
+  - destruct Hd as [-> Hr]. split; [reflexivity|exact Hr].
+  - destruct Hd as [-> ->]. split; [reflexivity|left; reflexivity].
+Qed.
+
+(** ... lifted through the multipart parser and the callbacks *)
+Definition xrel (x1 x2 : xstate) : Prop :=
+  accrel (x_dl x1) (x_dl x2) /\ x_mp x1 = x_mp x2 /\ x_boundary x1 = x_boundary x2 /\
+  x_rx x1 = x_rx x2.
+
+Lemma mp_step_rel ridx pn pe dl1 dl2 st mlen isuf : accrel dl1 dl2 ->
+  match mp_step H doff ridx rx_exec pn pe dl1 st mlen isuf,
+        mp_step H doff ridx rx_exec pn pe dl2 st mlen isuf with
+  | inl ((d1, m1), r1), inl ((d2, m2), r2) => accrel d1 d2 /\ m1 = m2 /\ r1 = r2
+  | inr (d1, st1, ml1, i1), inr (d2, st2, ml2, i2) =>
+      accrel d1 d2 /\ st1 = st2 /\ ml1 = ml2 /\ i1 = i2
+  | _, _ => False
+  end.
+Proof.
+  intros HR. unfold mp_step. destruct isuf as [|b0 isuf']; [repeat split; auto|]. destruct st.
+  - unfold data_step.
+    destruct (dlw_rel ridx dl1 dl2
+                (firstn (N.to_nat (dsize mlen (len (b0 :: isuf')))) (b0 :: isuf')) HR) as [Hr Ha].
+    destruct (dlw H doff ridx dl1 _) as [d1 r1]. destruct (dlw H doff ridx dl2 _) as [d2 r2].
+    cbn [fst snd] in Hr, Ha. subst r2.
+    destruct (dret r1 =? _); repeat split; auto.
+  - unfold hdr_step.
+    destruct (scan _ _ _); try (repeat split; auto; fail).
+    destruct (cstr _); try (repeat split; auto; fail).
+    destruct (rx_exec pn _) as [[[so1 eo1] [so2 eo2]]|].
+    + destruct (take_exact _ so1 _); try (repeat split; auto; fail).
+      destruct (take_exact _ so2 _); repeat split; auto.
+    + destruct (rx_exec pe _); repeat split; auto. apply accrel_set_err. exact HR.
+Qed.
+
+Lemma mp_loop_rel ridx : forall f pn pe dl1 dl2 st mlen isuf, accrel dl1 dl2 ->
+  accrel (fst (fst (mp_loop H doff ridx rx_exec f pn pe dl1 st mlen isuf)))
+         (fst (fst (mp_loop H doff ridx rx_exec f pn pe dl2 st mlen isuf))) /\
+  snd (fst (mp_loop H doff ridx rx_exec f pn pe dl1 st mlen isuf)) =
+  snd (fst (mp_loop H doff ridx rx_exec f pn pe dl2 st mlen isuf)) /\
+  snd (mp_loop H doff ridx rx_exec f pn pe dl1 st mlen isuf) =
+  snd (mp_loop H doff ridx rx_exec f pn pe dl2 st mlen isuf).
+Proof.
+  induction f as [|f IH]; intros pn pe dl1 dl2 st mlen isuf HR.
+  - cbn [mp_loop fst snd]. auto.
+  - rewrite !mp_loop_S. pose proof (mp_step_rel ridx pn pe dl1 dl2 st mlen isuf HR) as Hs.
+    destruct (mp_step H doff ridx rx_exec pn pe dl1 st mlen isuf)
+      as [[[d1 m1] r1]|[[[d1 st1] ml1] i1]];
+    destruct (mp_step H doff ridx rx_exec pn pe dl2 st mlen isuf)
+      as [[[d2 m2] r2]|[[[d2 st2] ml2] i2]]; try contradiction; cbn [mp_next].
+    + cbn [fst snd]. exact Hs.
+    + destruct Hs as (Ha & -> & -> & ->). apply IH. exact Ha.
+Qed.
+
+Lemma mpx_rel ridx x1 x2 b : xrel x1 x2 ->
+  xrel (fst (mpx H doff ridx rx_comp rx_exec x1 b)) (fst (mpx H doff ridx rx_comp rx_exec x2 b)) /\
+  snd (mpx H doff ridx rx_comp rx_exec x1 b) = snd (mpx H doff ridx rx_comp rx_exec x2 b).
+Proof.
+  intros HX. pose proof HX as (HA & Hm & Hb & Hr). unfold mpx.
+  rewrite (proj1 (accrel_proj _ _ HA)), Hm, Hb, Hr.
+  destruct (d_err (x_dl x2)); [split; [exact HX|reflexivity]|]. cbv zeta.
+  destruct (match x_rx x2 with Some r => Some r | None => _ end) as [[pn pe]|].
+  - pose proof (mp_loop_rel ridx (2 * length (m_buf (x_mp x2) ++ b) + 4) pn pe (x_dl x1) (x_dl x2)
+                  (m_state (x_mp x2)) (m_length (x_mp x2)) (m_buf (x_mp x2) ++ b) HA) as Hl.
+    destruct (mp_loop _ _ _ _ _ _ _ (x_dl x1) _ _ _) as [[d1 m1] r1].
+    destruct (mp_loop _ _ _ _ _ _ _ (x_dl x2) _ _ _) as [[d2 m2] r2].
+    cbn [fst snd] in Hl. destruct Hl as (Ha & -> & ->). cbn [fst snd].
+    split; [|reflexivity]. repeat split; cbn [x_dl x_mp x_boundary x_rx]; auto.
+  - cbn [fst snd]. split; [|reflexivity].
+    repeat split; cbn [x_dl x_mp x_boundary x_rx]; auto. apply accrel_set_err. exact HA.
+Qed.
+
+Lemma write_cb_rel ridx x1 x2 fr : xrel x1 x2 ->
+  xrel (fst (fst (write_cb H doff ridx rx_comp rx_exec x1 fr)))
+       (fst (fst (write_cb H doff ridx rx_comp rx_exec x2 fr))) /\
+  snd (fst (write_cb H doff ridx rx_comp rx_exec x1 fr)) =
+  snd (fst (write_cb H doff ridx rx_comp rx_exec x2 fr)) /\
+  snd (write_cb H doff ridx rx_comp rx_exec x1 fr) = snd (write_cb H doff ridx rx_comp rx_exec x2 fr).
+Proof.
+  intros HX. pose proof HX as (HA & Hm & Hb & Hr). unfold write_cb. rewrite Hb.
+  destruct (x_boundary x2).
+  - destruct (mpx_rel ridx x1 x2 fr HX) as [Hx Hs]. rewrite Hm.
+    destruct (mpx H doff ridx rx_comp rx_exec x1 fr) as [x1' r1].
+    destruct (mpx H doff ridx rx_comp rx_exec x2 fr) as [x2' r2].
+    cbn [fst snd] in Hx, Hs. subst r2. cbn [fst snd]. auto.
+  - destruct (dlw_rel ridx (x_dl x1) (x_dl x2) fr HA) as [Hs Ha]. rewrite Hm, Hr.
+    destruct (dlw H doff ridx (x_dl x1) fr) as [d1 r1].
+    destruct (dlw H doff ridx (x_dl x2) fr) as [d2 r2].
+    cbn [fst snd] in Hs, Ha. subst r2. cbn [fst snd].
+    split; [|auto]. repeat split; cbn [x_dl x_mp x_boundary x_rx]; auto.
+Qed.
+
+Lemma feed_frags_rel ridx : forall frags x1 x2, xrel x1 x2 ->
+  xrel (fst (fst (feed_frags H doff ridx rx_comp rx_exec x1 frags)))
+       (fst (fst (feed_frags H doff ridx rx_comp rx_exec x2 frags))) /\
+  snd (fst (feed_frags H doff ridx rx_comp rx_exec x1 frags)) =
+  snd (fst (feed_frags H doff ridx rx_comp rx_exec x2 frags)) /\
+  snd (feed_frags H doff ridx rx_comp rx_exec x1 frags) =
+  snd (feed_frags H doff ridx rx_comp rx_exec x2 frags).
+Proof.
+  induction frags as [|fr rest IH]; intros x1 x2 HX; cbn [feed_frags]; [auto|].
+  destruct (write_cb_rel ridx x1 x2 fr HX) as (Hx & Hok & Hr).
+  destruct (write_cb H doff ridx rx_comp rx_exec x1 fr) as [[x1' ok1] r1].
+  destruct (write_cb H doff ridx rx_comp rx_exec x2 fr) as [[x2' ok2] r2].
+  cbn [fst snd] in Hx, Hok, Hr. subst ok2 r2.
+  assert (Hgo :
+    let F1 := if ok1 then let '(x'', l, a) := feed_frags H doff ridx rx_comp rx_exec x1' rest in
+                          (x'', true :: l, a) else (x1', [false], false) in
+    let F2 := if ok1 then let '(x'', l, a) := feed_frags H doff ridx rx_comp rx_exec x2' rest in
+                          (x'', true :: l, a) else (x2', [false], false) in
+    xrel (fst (fst F1)) (fst (fst F2)) /\ snd (fst F1) = snd (fst F2) /\ snd F1 = snd F2).
+  { destruct ok1; cbv zeta; [|cbn [fst snd]; auto].
+    destruct (IH x1' x2' Hx) as (Hx' & Hl & Ha).
+    destruct (feed_frags H doff ridx rx_comp rx_exec x1' rest) as [[x1'' l1] a1].
+    destruct (feed_frags H doff ridx rx_comp rx_exec x2' rest) as [[x2'' l2] a2].
+    cbn [fst snd] in *. subst. auto. }
+  destruct r1; try exact Hgo; cbn [fst snd]; auto.
+Qed.
+
+Lemma header_cb_rel x1 x2 line : xrel x1 x2 ->
+  xrel (header_cb rx_comp rx_exec x1 line) (header_cb rx_comp rx_exec x2 line).
+Proof.
+  intros HX. pose proof HX as (HA & Hm & Hb & Hr). unfold header_cb.
+  destruct (get_boundary_form line (d_err (x_dl x2))) as [k Hk].
+  rewrite (Hk x1 (proj1 (accrel_proj _ _ HA))), (Hk x2 eq_refl).
+  destruct k; cbn [apply_k]; [exact HX| |].
+  - repeat split; cbn [x_set_err x_dl x_mp x_boundary x_rx]; auto. apply accrel_set_err. exact HA.
+  - repeat split; cbn [x_dl x_mp x_boundary x_rx]; auto.
+Qed.
+
+(** ** Without a boundary the body callback is [DlPlace.feed] *)
+Lemma feed_frags_plain ridx : forall frags x s',
+  x_boundary x = None -> Forall (fun fr => fr <> []) frags ->
+  feed H doff ridx (x_dl x) frags = (s', true) ->
+  x_dl (fst (fst (feed_frags H doff ridx rx_comp rx_exec x frags))) = s'.
+Proof.
+  induction frags as [|fr rest IH]; intros x s' Hb Hne Hf; cbn [feed feed_frags] in *.
+  - inversion Hf. reflexivity.
+  - inversion Hne as [|? ? Hfr Hrest]; subst. unfold write_cb. rewrite Hb.
+    destruct (dlw H doff ridx (x_dl x) fr) as [dl' r]. destruct r as [n| |]; try discriminate.
+    destruct (n =? len fr) eqn:En; [|discriminate]. apply N.eqb_eq in En. subst n.
+    cbn [dret].
+    replace (len fr =? 0) with false
+      by (symmetry; apply N.eqb_neq; pose proof (nonnil_len_pos fr Hfr); lia).
+    cbn [negb orb].
+    specialize (IH (mkX dl' (x_mp x) None (x_rx x)) s' eq_refl Hrest Hf).
+    destruct (feed_frags H doff ridx rx_comp rx_exec (mkX dl' (x_mp x) None (x_rx x)) rest)
+      as [[x'' l] a]. exact IH.
+Qed.
+
+(** the state after the reset and the initial state of the single-transfer theorems *)
+Lemma reset_xrel x : d_err (x_dl x) = false ->
+  xrel (dl_reset x) (x_start (d_fpos (x_dl x)) (d_file (x_dl x)) (d_tab (x_dl x))).
+Proof.
+  intros He. split; [|repeat split; reflexivity]. right.
+  split; [reflexivity|]. split; [reflexivity|]. exists (d_acc (x_dl x)).
+  rewrite dl_reset_dl, He. reflexivity.
+Qed.
+
+(** ** Plain single range *)
+Theorem retry_place_plain : forall x datas frags,
+  d_err (x_dl x) = false ->
+  let tab := d_tab (x_dl x) in let ridx := missing_ridx tab in
+  ridx <> [] -> DlInv.disjoint_tab doff tab -> datas_ok H ridx tab datas ->
+  Forall (fun fr => fr <> []) frags -> concat frags = concat datas ->
+  let x' := run_transfer H doff rx_comp rx_exec x (mkT [] frags) in
+  (forall k e d c, nth_error ridx k = Some e -> nth_error datas k = Some d ->
+      nth_error tab (r_tgt e) = Some c ->
+      (exists c', nth_error (d_tab (x_dl x')) (r_tgt e) = Some c' /\ c_valid c' = VValid) /\
+      fread (d_file (x_dl x')) (doff + c_start c) (length d) = d) /\
+  (forall t, ~ In t (map r_tgt ridx) -> nth_error (d_tab (x_dl x')) t = nth_error tab t).
+Proof.
+  intros x datas frags He tab ridx Hne D Hd Hfr Hcat x'.
+  pose proof (missing_req_ok doff tab D Hne) as Hreq. fold ridx in Hreq.
+  set (fpos := d_fpos (x_dl x)). set (file := d_file (x_dl x)).
+  destruct (feed_frags_rel ridx frags _ _ (reset_xrel x He)) as ((Ha & _) & _).
+  fold tab fpos file in Ha.
+  pose proof (dlw_place_any_partition H doff ridx tab datas fpos file frags Hreq Hd Hfr Hcat) as Hfeed.
+  rewrite (feed_frags_plain ridx frags (x_start fpos file tab) _ eq_refl Hfr Hfeed) in Ha.
+  destruct (accrel_proj _ _ Ha) as (_ & Htab & Hfile).
+  destruct (dlw_place_oneshot H doff ridx tab datas fpos file _ Hreq Hd eq_refl) as (_ & Hp & Ho).
+  unfold x', run_transfer. cbn [t_hdrs t_frags fold_left].
+  change (d_tab (x_dl (dl_reset x))) with tab. fold ridx.
+  rewrite Htab, Hfile. split; [exact Hp|exact Ho].
+Qed.
+
+(** ** Composition: any session, then a complete retry *)
+Corollary retry_after_session_plain : forall tab0 file0 ts x0 datas frags,
+  DlInv.disjoint_tab doff tab0 -> sess_inv tab0 file0 x0 ->
+  let x := session H doff rx_comp rx_exec x0 ts in
+  d_err (x_dl x) = false ->
+  let tab := d_tab (x_dl x) in let ridx := missing_ridx tab in
+  ridx <> [] -> datas_ok H ridx tab datas ->
+  Forall (fun fr => fr <> []) frags -> concat frags = concat datas ->
+  let x' := run_transfer H doff rx_comp rx_exec x (mkT [] frags) in
+  (forall k e d c, nth_error ridx k = Some e -> nth_error datas k = Some d ->
+      nth_error tab (r_tgt e) = Some c ->
+      (exists c', nth_error (d_tab (x_dl x')) (r_tgt e) = Some c' /\ c_valid c' = VValid) /\
+      fread (d_file (x_dl x')) (doff + c_start c) (length d) = d) /\
+  (forall t, ~ In t (map r_tgt ridx) -> nth_error (d_tab (x_dl x')) t = nth_error tab t) /\
+  sess_inv tab0 file0 x'.
+Proof.
+  intros tab0 file0 ts x0 datas frags D Hs x He tab ridx Hne Hd Hfr Hcat x'.
+  pose proof (session_inv tab0 file0 ts x0 D Hs) as Hsx. fold x in Hsx.
+  pose proof (disjoint_cur doff tab0 tab D (proj1 Hsx)) as Dx.
+  destruct (retry_place_plain x datas frags He Hne Dx Hd Hfr Hcat) as [Hp Ho].
+  split; [exact Hp|]. split; [exact Ho|].
+  apply run_transfer_sess_inv; assumption.
+Qed.
+
 End SessionProofs.
+
+(** * 4. Retry placement through the multipart layer (literal matcher) *)
+Theorem retry_place_mp : forall H doff x datas B parts (pre : bytes) quoted frags,
+  d_err (x_dl x) = false ->
+  let tab := d_tab (x_dl x) in let ridx := missing_ridx tab in
+  ridx <> [] -> DlInv.disjoint_tab doff tab -> datas_ok H ridx tab datas ->
+  wf_body B parts datas ->
+  Forall (fun c => c <> 0) pre ->
+  (forall k, (k < length pre)%nat -> prefix_ic kw_boundary (skipn k (pre ++ kw_boundary)) = false) ->
+  B <> [] -> (quoted = false -> hd 0 B <> 32 /\ hd 0 B <> 34) -> len (ct_line pre B quoted) < two64 ->
+  Forall (fun fr => fr <> []) frags -> concat frags = mp_body B parts ->
+  let x' := run_transfer H doff lit_comp lit_exec x (mkT [ct_line pre B quoted] frags) in
+  (forall k e d c, nth_error ridx k = Some e -> nth_error datas k = Some d ->
+      nth_error tab (r_tgt e) = Some c ->
+      (exists c', nth_error (d_tab (x_dl x')) (r_tgt e) = Some c' /\ c_valid c' = VValid) /\
+      fread (d_file (x_dl x')) (doff + c_start c) (length d) = d) /\
+  (forall t, ~ In t (map r_tgt ridx) -> nth_error (d_tab (x_dl x')) t = nth_error tab t).
+Proof.
+  intros H doff x datas B parts pre quoted frags He tab ridx Hne D Hd Hwf Hpre Hfree HB Hq Hlen
+         Hfr Hcat x'.
+  pose proof (missing_req_ok doff tab D Hne) as Hreq. fold ridx in Hreq.
+  set (fpos := d_fpos (x_dl x)). set (file := d_file (x_dl x)).
+  destruct (transfer_lit H doff ridx tab datas B parts fpos file pre quoted frags
+              Hreq Hd Hwf Hpre Hfree HB Hq Hlen Hfr Hcat) as (x2 & rets & Hfeed & Hp & Ho).
+  destruct (feed_frags_rel H doff lit_comp lit_exec ridx frags _ _
+              (header_cb_rel lit_comp lit_exec _ _ (ct_line pre B quoted) (reset_xrel x He)))
+    as ((Ha & _) & _).
+  fold tab fpos file in Ha. rewrite Hfeed in Ha. cbn [fst] in Ha.
+  destruct (accrel_proj _ _ Ha) as (_ & Htab & Hfile).
+  unfold x', run_transfer. cbn [t_hdrs t_frags fold_left].
+  change (d_tab (x_dl (dl_reset x))) with tab. fold ridx.
+  rewrite Htab, Hfile. split; assumption.
+Qed.
+
+Print Assumptions reset_wf.
+Print Assumptions session_inv.
+Print Assumptions sess_inv_start.
+Print Assumptions session_valid_untouched.
+Print Assumptions missing_req_ok.
+Print Assumptions retry_place_plain.
+Print Assumptions retry_after_session_plain.
+Print Assumptions retry_place_mp.
+
+(** * A concrete session
+    Three chunks, nothing present.  The first transfer stops after two of the four bytes of
+    chunk 0: [write_in_chunk = 2], the target pointer and the hash context are left open.  The
+    second transfer delivers the complete payload for what is missing (everything). *)
+Module SessionExample.
+Definition toyH := D14.toyH.
+Definition dA : bytes := [1; 2; 3; 4].
+Definition dB : bytes := [5; 6].
+Definition dC : bytes := [7; 8; 9].
+Definition tab : list chunk :=
+  [mkChunk 0 4 (toyH dA) VUnknown; mkChunk 4 2 (toyH dB) VUnknown; mkChunk 6 3 (toyH dC) VUnknown].
+Definition doff : N := 2.
+Definition file : bytes := [255; 254].
+(* no header lines are sent, so the oracles are never consulted *)
+Definition no_comp (_ : bytes) := false.
+Definition no_exec (_ _ : bytes) : option ((N * N) * (N * N)) := None.
+Definition x0 : xstate :=
+  mkX (mkDl false 0 0 None None None 0 file tab) (mkMp false 0 []) None None.
+Definition t1 : transfer := mkT [] [[1; 2]].
+Definition t2 : transfer := mkT [] [dA ++ dB; dC].
+Definition x1 : xstate := run_transfer toyH doff no_comp no_exec x0 t1.
+
+Example broken_state :
+  d_wic (x_dl x1) = 2 /\ d_tgt (x_dl x1) = Some 0%nat /\ d_acc (x_dl x1) = Some [1; 2] /\
+  map c_valid (d_tab (x_dl x1)) = [VUnknown; VUnknown; VUnknown] /\
+  d_file (x_dl x1) = [255; 254; 1; 2] /\ d_err (x_dl x1) = false.
+Proof. vm_compute. repeat split; reflexivity. Qed.
+
+(** with [zck_dl_reset]: everything arrives *)
+Example retry_ok :
+  let x2 := session toyH doff no_comp no_exec x0 [t1; t2] in
+  map c_valid (d_tab (x_dl x2)) = [VValid; VValid; VValid] /\
+  d_file (x_dl x2) = [255; 254; 1; 2; 3; 4; 5; 6; 7; 8; 9] /\ d_err (x_dl x2) = false.
+Proof. vm_compute. repeat split; reflexivity. Qed.
+
+(** the same as an instance of [retry_place_plain] *)
+Example x1_disjoint : DlInv.disjoint_tab doff (d_tab (x_dl x1)).
+Proof.
+  intros t1 t2 c1 c2 x Hne H1 H2 [Ha Hb] [Hc Hd].
+  change (d_tab (x_dl x1)) with tab in H1, H2.
+  repeat (destruct t1 as [|t1]; cbn [nth_error tab] in H1; try discriminate);
+  repeat (destruct t2 as [|t2]; cbn [nth_error tab] in H2; try discriminate);
+  try congruence; inversion H1; inversion H2; subst; unfold doff in *;
+  cbn [c_start c_len] in *; lia.
+Qed.
+
+Example retry_ok_thm : forall frags,
+  Forall (fun fr => fr <> []) frags -> concat frags = dA ++ dB ++ dC ->
+  let x2 := run_transfer toyH doff no_comp no_exec x1 (mkT [] frags) in
+  fread (d_file (x_dl x2)) (doff + 0) 4 = dA /\ fread (d_file (x_dl x2)) (doff + 4) 2 = dB /\
+  fread (d_file (x_dl x2)) (doff + 6) 3 = dC.
+Proof.
+  intros frags Hne Hcat.
+  destruct (retry_place_plain toyH doff no_comp no_exec x1 [dA; dB; dC] frags eq_refl) as [Hp _];
+    try assumption.
+  - discriminate.
+  - exact x1_disjoint.
+  - change (d_tab (x_dl x1)) with tab.
+    change (missing_ridx tab) with
+      [mkRentry 0 4 (toyH dA) 0; mkRentry 4 2 (toyH dB) 1; mkRentry 6 3 (toyH dC) 2].
+    unfold datas_ok. repeat constructor; eexists; (split; [reflexivity|]); vm_compute; reflexivity.
+  - cbv zeta. split; [|split].
+    + exact (proj2 (Hp 0%nat _ dA (mkChunk 0 4 (toyH dA) VUnknown) eq_refl eq_refl eq_refl)).
+    + exact (proj2 (Hp 1%nat _ dB (mkChunk 4 2 (toyH dB) VUnknown) eq_refl eq_refl eq_refl)).
+    + exact (proj2 (Hp 2%nat _ dC (mkChunk 6 3 (toyH dC) VUnknown) eq_refl eq_refl eq_refl)).
+Qed.
+
+(** a reset that forgets [write_in_chunk] (what [reset_wf] rules out): the first two bytes of
+    the new response are taken for the rest of the old chunk and land at the old file position,
+    the stream then stalls at payload offset 2 where no entry starts; no chunk becomes valid,
+    the file holds garbage, and the callback still reports a non-zero count *)
+Definition bad_reset (x : xstate) : xstate :=
+  let s := x_dl x in
+  mkX (mkDl (d_err s) 0 (d_wic s) None None (d_acc s) (d_fpos s) (d_file s) (d_tab s))
+      (mkMp false 0 []) None None.
+Definition bad_run_transfer (x : xstate) (t : transfer) : xstate * list bool * bool :=
+  let xr := bad_reset x in
+  let ridx := missing_ridx (d_tab (x_dl xr)) in
+  feed_frags toyH doff ridx no_comp no_exec (fold_left (header_cb no_comp no_exec) (t_hdrs t) xr)
+             (t_frags t).
+
+Example retry_bad_reset :
+  let '(x2, rets, ok) := bad_run_transfer x1 (mkT [] [dA ++ dB ++ dC]) in
+  map c_valid (d_tab (x_dl x2)) = [VUnknown; VUnknown; VUnknown] /\
+  d_file (x_dl x2) = [255; 254; 1; 2; 1; 2] /\ rets = [true] /\ ok = true /\
+  d_err (x_dl x2) = false.
+Proof. vm_compute. repeat split; reflexivity. Qed.
+
+(** the reset state does not satisfy [dl_wf] for the bad reset: a non-zero [write_in_chunk]
+    without a target *)
+Example bad_reset_not_wf :
+  ~ dl_wf doff (missing_ridx (d_tab (x_dl (bad_reset x1)))) (d_tab (x_dl (bad_reset x1)))
+          (x_dl (bad_reset x1)).
+Proof.
+  intros (_ & _ & _ & W4). destruct W4 as (t & c & Hg & _).
+  - vm_compute. reflexivity.
+  - discriminate.
+Qed.
+End SessionExample.
